@@ -135,6 +135,56 @@ theorem traced_records_scripted (name : Nat) (o : Outcome) (leak k : Nat) (hk : 
       w.nodes ++ [{ name := name, parent := c.scope, recs := [.args a, .metric k, .result o], finished := true }] := by
   by_cases hl : leak = 0 <;> simp [callTraced, scripted, tracedEnter, record, finish, hk, hl]
 
+/-! ## the receiver of a method call is an argument like any other -/
+
+theorem record_recvs (w : World) (c : Ctx) (r : Rec) : (record w c r).recvs = w.recvs := by
+  simp only [record]
+  split
+  · rfl
+  · split <;> rfl
+
+theorem finish_recvs (w : World) (n : Nat) : (finish w n).recvs = w.recvs := by
+  simp only [finish]
+  split <;> rfl
+
+theorem scripted_recvs (o : Outcome) (leak k a : Nat) (c : Ctx) (w : World) :
+    (scripted o leak k a c w).2.2.recvs = w.recvs := by
+  simp only [scripted]
+  split
+  · rfl
+  · exact record_recvs _ _ _
+
+/-- one call of a scripted method through any of the three wrappers logs exactly its own receiver -/
+theorem call_recvs (o : Outcome) (leak k recv a : Nat) (c : Ctx) (w : World) (id name : Nat) (doc : Option Nat) :
+    (callAsynchronous (scriptedMethod id name doc o leak k recv) a c w).2.2.recvs = w.recvs ++ [recv] ∧
+    (callWrapAsync (scriptedMethod id name doc o leak k recv) a c w).2.2.recvs = w.recvs ++ [recv] ∧
+    (callTraced (scriptedMethod id name doc o leak k recv) a c w).2.2.recvs = w.recvs ++ [recv] := by
+  refine ⟨?_, ?_, ?_⟩
+  · simp [callAsynchronous, scriptedMethod, scripted_recvs]
+  · simp [callWrapAsync, scriptedMethod, scripted_recvs]
+  · simp [callTraced, scriptedMethod, scripted_recvs, finish_recvs, record_recvs, tracedEnter]
+
+/-- C18.receiver_preserved: for every sequence of method calls – the same instance again, copies of it, other
+instances, in any order – each call runs on the receiver it was made on: the receivers the function saw are exactly
+the receivers of the calls, in order (nothing is cached per instance or shared through a copied `__dict__`). -/
+theorem receiver_preserved (o : Outcome) (leak k id name : Nat) (doc : Option Nat)
+    (call : Fn → Nat → Ctx → World → Outcome × Ctx × World)
+    (hcall : call = callAsynchronous ∨ call = callWrapAsync ∨ call = callTraced) :
+    ∀ (calls : List (Nat × Nat)) (c : Ctx) (w : World),
+      (callSeq call (scriptedMethod id name doc o leak k) calls c w).2.2.recvs = w.recvs ++ calls.map (·.1)
+  | [], c, w => by simp [callSeq]
+  | (recv, a) :: rest, c, w => by
+    have h1 : (call (scriptedMethod id name doc o leak k recv) a c w).2.2.recvs = w.recvs ++ [recv] := by
+      have := call_recvs o leak k recv a c w id name doc
+      rcases hcall with h | h | h <;> subst h
+      · exact this.1
+      · exact this.2.1
+      · exact this.2.2
+    have ih := receiver_preserved o leak k id name doc call hcall rest
+      (call (scriptedMethod id name doc o leak k recv) a c w).2.1
+      (call (scriptedMethod id name doc o leak k recv) a c w).2.2
+    simp only [callSeq, ih, h1, List.map_cons, List.append_assoc, List.singleton_append]
+
 /-! ## metadata -/
 
 /-- C18.metadata: for each of the seven decorators the decorated object carries the function's name, its docstring
@@ -164,6 +214,18 @@ example :
     r.1 = .ret 3 ∧ r.2.1 = { state := some 2, scope := some 0 } ∧
     r.2.2.nodes[1]? = some { name := 98, parent := some 0, recs := [.args 0, .metric 4, .result (.ret 3)], finished := true } := by
   decide
+
+/-- a cancellation delivered while the traced coroutine is suspended is an outcome like any other: recorded, re-raised -/
+example :
+    let f : Fn := { id := 7, name := 98, doc := none, run := scripted (.raise { cls := aioCancelled, obj := 0 }) 0 0 }
+    let r := callTraced f 0 { state := some 2, scope := some 0 } { nodes := [{ name := 99, parent := none }] }
+    r.1 = .raise { cls := aioCancelled, obj := 0 } ∧
+    (r.2.2.nodes[1]?).map (·.recs) = some [.args 0, .result (.raise { cls := aioCancelled, obj := 0 })] := by decide
+
+/-- instance, a copy of it, the instance again, a subclass instance twice: every call sees its own receiver -/
+example :
+    let m := scriptedMethod 7 98 none (.ret 3) 0 0
+    (callSeq callAsynchronous m [(1, 0), (2, 0), (1, 0), (4, 0), (4, 0)] {} {}).2.2.recvs = [1, 2, 1, 4, 4] := by decide
 
 /-- through `wrap_async` the leak is visible to the caller -/
 example :
